@@ -559,28 +559,38 @@ def pipeline(ctx, bins, types, tag, stats):
 
 # ----------------------------------------------------------------------------- synthetic optimize inputs
 def synth_records(rng):
-    """A record list as structlayout would print it for some flat or one-level nested
-    struct: fields with power-of-two alignment and size a multiple of it, laid out in
-    a random order with the padding the compiler would insert."""
+    """A record list as structlayout prints it for a struct whose fields are scalars or
+    one-level nested structs: alignments are powers of two, sizes multiples of the
+    alignment (zero included), nested structs start at a multiple of their alignment and
+    are tail-padded to it, padding records fill every gap."""
     nf = 1 + rng.below(7)
     recs = []
     pos = 0
     mx = 1
+
+    def pad_to(off):
+        nonlocal pos
+        if off > pos:
+            recs.append({"name": "", "start": pos, "end": off, "size": off - pos, "align": 0, "pad": True})
+        pos = off
+
     for i in range(nf):
         members = 1 if rng.chance(2, 3) else 2 + rng.below(2)
+        ms = []
         for m in range(members):
             a = rng.choice([1, 1, 2, 4, 8, 8, 16])
             s = a * rng.choice([0, 1, 1, 1, 2, 3]) if rng.chance(9, 10) else 0
-            mx = max(mx, a)
-            off = (pos + a - 1) // a * a
-            if off > pos:
-                recs.append({"name": "", "start": pos, "end": off, "size": off - pos, "align": 0, "pad": True})
+            ms.append((a, s))
+        ga = max(a for a, _ in ms)
+        mx = max(mx, ga)
+        pad_to((pos + ga - 1) // ga * ga)
+        for m, (a, s) in enumerate(ms):
+            pad_to((pos + a - 1) // a * a)
             name = "T.f%d" % i + (".m%d" % m if members > 1 else "")
-            recs.append({"name": name, "start": off, "end": off + s, "size": s, "align": a, "pad": False})
-            pos = off + s
-    tot = (pos + mx - 1) // mx * mx
-    if tot > pos:
-        recs.append({"name": "", "start": pos, "end": tot, "size": tot - pos, "align": 0, "pad": True})
+            recs.append({"name": name, "start": pos, "end": pos + s, "size": s, "align": a, "pad": False})
+            pos += s
+        pad_to((pos + ga - 1) // ga * ga)
+    pad_to((pos + mx - 1) // mx * mx)
     return recs
 
 
